@@ -424,7 +424,11 @@ async fn run_case(case: &Case) -> CaseOut {
                 }
             }
             Beh::Iin2Reject(b) | Beh::Iin2RejectWith(b, _) => {
-                let i1 = if let Beh::Iin2RejectWith(_, i) = beh { *i } else { 0 };
+                let i1 = if let Beh::Iin2RejectWith(_, i) = beh {
+                    *i
+                } else {
+                    0
+                };
                 if i1 & iin1::RESTART != 0 {
                     out.label("restart_seen");
                     out.label("restart_in_rejection");
@@ -471,7 +475,9 @@ async fn run_case(case: &Case) -> CaseOut {
                 if kix == 2 {
                     m.integrity_done = true;
                 }
-            } else if matches!(beh, Beh::Iin2Reject(_) | Beh::Iin2RejectWith(..)) && matches!(kix, 1 | 4) {
+            } else if matches!(beh, Beh::Iin2Reject(_) | Beh::Iin2RejectWith(..))
+                && matches!(kix, 1 | 4)
+            {
                 // rejected by the outstation: giving up and retrying with back-off are both accepted
                 m.open[kix] = true;
                 m.fails[kix] = (0, None, 0);
